@@ -12,7 +12,16 @@ PID = "C11"
 DEP = ["/a/dep.ts", "export const d = 'dep'; export function df(){ return d + '!'; }"]
 BDEP = ["/b/dep.ts", "export const d = 'bdep';"]
 
+# modules with a global side effect: they must never run on behalf of a later, unrelated program
+SIDE = ["/a/side.ts", "(globalThis as any).leakedGlobal = ((globalThis as any).leakedGlobal || 0) + 1; export const s = 1;"]
+MID = ["/a/mid.ts", "import { deepv } from './deep.ts'; (globalThis as any).leakedGlobal = 7; export const m = deepv;"]
+DEEP_THROWS = ["/a/deep.ts", "export const deepv = 1; throw new Error('deep module fails');"]
+SIDE_IMPORTS = ["/a/side2.ts", "import { zz } from './never-supplied.ts'; (globalThis as any).leakedGlobal = 9; export const s2 = zz;"]
+
 A_PROGRAMS = {
+    "module-supplied-then-abandoned": {"src": "import { s } from './side.ts'; import { nothing } from './missing.ts'; let secret = s; secret", "path": "/a/main.ts", "modules": [SIDE]},
+    "module-dep-of-dep-throws": {"src": "import { m } from './mid.ts'; let secret = m; secret", "path": "/a/main.ts", "modules": [MID, DEEP_THROWS]},
+    "module-supplied-with-own-imports": {"src": "import { s2 } from './side2.ts'; import { nothing } from './missing.ts'; let secret = s2; secret", "path": "/a/main.ts", "modules": [SIDE_IMPORTS]},
     "callee-locals": "function g(){ let inner = 7; let loc1 = {x:1}; for (let k=0;k<20;k++){ inner+=k; } return inner; } g()",
     "deep-chain-throw": "function f(n){ let loc1 = n; if (n==0) { let secret = 42; throw new Error('deep'); } return f(n-1)+loc1; } f(6)",
     "block-let": "{ let secret = 1; { let inner = 2; { let blockv = 3; secret = inner + blockv; } } secret }",
@@ -56,7 +65,7 @@ OBSERVERS = [
     {"name": "recursion", "src": "function rr(n){ return n == 0 ? 0 : 1 + rr(n - 1); } rr(150)"},
     {"name": "finally-completion", "src": "var oo = []; function ff(){ try { return 1; } finally { oo.push('f'); } } function gg(){ for (var i = 0; i < 2; i++) { try { continue; } finally { oo.push('c' + i); } } return 'g'; } [ff(), gg(), oo.join()].join('|')"},
     {"name": "order-roundtrip", "src": "import { order } from 'tsrun:host'; const v = await order('b'); typeof v + ':' + v"},
-    {"name": "module-import", "src": "import { d } from './dep.ts'; export const mine = d + '?'; mine", "path": "/b/main.ts", "modules": [BDEP]},
+    {"name": "module-import", "src": "import { d } from './dep.ts'; export const mine = d + '?' + typeof (globalThis as any).leakedGlobal; mine", "path": "/b/main.ts", "modules": [BDEP]},
     {"name": "generator-async", "src": "async function af(){ await null; return 5; } af(); function* gen(){ try { yield 1; yield 2; } finally { } } var acc = []; for (const x of gen()) { acc.push(x); } acc.join() + '|' + [...gen()].length"},
     {"name": "exception-handlers", "src": "var log = []; try { try { null.x; } finally { log.push('fin'); } } catch (err) { log.push(err instanceof TypeError); } try { undefinedFunctionName(); } catch (err2) { log.push(err2.name); } log.join()"},
 ]
@@ -81,7 +90,7 @@ def run(tier, seed):
                 p = dict(mk(A_PROGRAMS[f]))
                 if stop is not None:
                     p["stop"] = stop
-                cases.append({"id": "history|%s@%s|%s" % (f, stop, s), "prefix": [p], "a": mk(A_PROGRAMS[s]), "observers": OBSERVERS[:4] + OBSERVERS[6:], "stride": 3 if tier == "quick" else 1})
+                cases.append({"id": "history|%s@%s|%s" % (f, stop, s), "prefix": [p], "a": mk(A_PROGRAMS[s]), "observers": OBSERVERS[:4] + OBSERVERS[5:], "stride": 3 if tier == "quick" else 1})
     res = core.run_batch(cases, sub_args=("reuse",), hang_s=300, as_gb=2)
     runs = 0
     points = 0
